@@ -61,3 +61,219 @@ Proof.
         brk; b2p; cbn [k_next k_rend k_maxc k_pnext k_prend]; repeat split; intros; try lia; try congruence; auto; try discriminate.
     + brk; repeat split; intros; try lia; try congruence; auto; try discriminate.
 Qed.
+
+Lemma kwf_set_next k n :
+  kwf k -> 0 <= n <= INT32_MAX -> kwf (mkKp n (k_rend k) (k_maxc k) (k_pnext k) (k_prend k)).
+Proof. unfold kwf; cbn; intros; lia. Qed.
+
+Lemma get_new_props size k o k' r o' :
+  get_new size k o = (k', r, o') ->
+  mono k k' /\
+  (kwf k -> kwf k' /\ r <> GN_assert) /\
+  match r with
+  | GN_addr i w => i = k_next k /\ k_next k' = i + 1 /\ (w = true -> k_pnext k' = i + 1)
+  | _ => True
+  end.
+Proof.
+  unfold get_new. intros H.
+  destruct (topup size 0 k o) as [[k1 r1] o1] eqn:T1.
+  pose proof (topup_props _ _ _ _ _ _ _ T1) as (N1 & P1 & W1 & _).
+  assert (M1 : mono k k1) by (unfold mono; destruct P1; lia).
+  destruct (gn_of_tu r1) eqn:G1.
+  - inversion H; subst; clear H. split; [exact M1|]. split.
+    + intros Hk. destruct (W1 Hk) as [Hk1 Hna]. split; [exact Hk1|]. destruct r1; cbn in G1; inversion G1; subst; congruence.
+    + destruct r1; cbn in G1; inversion G1; subst; exact I.
+  - destruct (k_rend k1 <=? k_maxc k1) eqn:Hbr.
+    + destruct (topup size 1 k1 o1) as [[k2 r2] o2] eqn:T2.
+      pose proof (topup_props _ _ _ _ _ _ _ T2) as (N2 & P2 & W2 & _).
+      assert (M2 : mono k k2) by (apply (mono_trans _ k1); [exact M1|unfold mono; destruct P2; lia]).
+      assert (W12 : kwf k -> kwf k2 /\ r2 <> TU_assert) by (intros Hk; apply W2; apply W1; exact Hk).
+      destruct r2.
+      * (* TU_true *)
+        destruct (INT32_MAX <=? k_next k2) eqn:Hmx.
+        { inversion H; subst; clear H. split; [exact M2|]. split; [|exact I]. intros Hk; split; [apply W12; exact Hk|congruence]. }
+        destruct (pop o2) as [w o3] eqn:Hp. inversion H; subst; clear H. b2p.
+        split.
+        { destruct M2 as [Ma Mb]. unfold mono; cbn. split; [lia|]. destruct w; [right; lia|]. destruct Mb; [left; auto|right; lia]. }
+        split.
+        { intros Hk. destruct (W12 Hk) as [Hk2 _]. split; [|congruence]. unfold kwf in *; cbn. destruct w; lia. }
+        cbn. split; [lia|]. split; [lia|]. intros ->. reflexivity.
+      * inversion H; subst; clear H. split; [exact M2|]. split; [|exact I]. intros Hk; split; [apply W12; exact Hk|congruence].
+      * inversion H; subst; clear H. split; [exact M2|]. split; [|exact I]. intros Hk; split; [apply W12; exact Hk|congruence].
+      * inversion H; subst; clear H. split; [exact M2|]. split; [|exact I]. intros Hk. destruct (W12 Hk) as [_ Hna]. congruence.
+      * inversion H; subst; clear H. split; [exact M2|]. split; [|exact I]. intros Hk; split; [apply W12; exact Hk|congruence].
+    + destruct (INT32_MAX <=? k_next k1) eqn:Hmx.
+      { inversion H; subst; clear H. split; [exact M1|]. split; [|exact I]. intros Hk; split; [apply W1; exact Hk|congruence]. }
+      destruct (pop o1) as [w o3] eqn:Hp. inversion H; subst; clear H. b2p.
+      split.
+      { destruct M1 as [Ma Mb]. unfold mono; cbn. split; [lia|]. destruct w; [right; lia|]. destruct Mb; [left; auto|right; lia]. }
+      split.
+      { intros Hk. destruct (W1 Hk) as [Hk2 _]. split; [|congruence]. unfold kwf in *; cbn. destruct w; lia. }
+      cbn. split; [lia|]. split; [lia|]. intros ->. reflexivity.
+Qed.
+
+Lemma return_dest_props k idx o k' o' :
+  return_dest k idx o = (k', o') ->
+  k_next k' = (if k_next k - 1 =? idx then k_next k - 1 else k_next k) /\
+  (k_pnext k' = k_pnext k \/ k_pnext k' = k_next k') /\
+  (kwf k -> 0 <= idx -> kwf k').
+Proof.
+  unfold return_dest. intros H. destruct (pop o) as [w o1]. inversion H; subst; clear H. cbn.
+  split; [reflexivity|]. split; [destruct w; auto|].
+  unfold kwf; cbn. intros Hk Hi. destruct (k_next k - 1 =? idx) eqn:E; b2p; destruct w; lia.
+Qed.
+
+Lemma mark_used_props size k idx o k' c r o' :
+  mark_used size k idx o = (k', (c, r), o') ->
+  mono k k' /\ (kwf k -> kwf k' /\ r <> TU_assert).
+Proof.
+  unfold mark_used. intros H.
+  destruct ((0 <=? idx) && (idx <=? k_maxc k)) eqn:Hin.
+  - b2p. destruct (k_next k <=? idx) eqn:Hge; b2p.
+    + destruct (topup size 0 _ o) as [[k2 r2] o2] eqn:T. inversion H; subst; clear H.
+      pose proof (topup_props _ _ _ _ _ _ _ T) as (N & P & W & _). cbn in N, P.
+      split; [unfold mono; destruct P; lia|].
+      intros Hk. apply W. unfold kwf in *; cbn. lia.
+    + destruct (topup size 0 k o) as [[k2 r2] o2] eqn:T. inversion H; subst; clear H.
+      pose proof (topup_props _ _ _ _ _ _ _ T) as (N & P & W & _).
+      split; [unfold mono; destruct P; lia|exact W].
+  - inversion H; subst; clear H. split; [apply mono_refl|]. intros Hk; split; [exact Hk|congruence].
+Qed.
+
+Lemma load_slot_props size k :
+  kwf k -> kwf (load_slot size k) /\ k_next (load_slot size k) = k_pnext k /\ k_pnext (load_slot size k) = k_pnext k.
+Proof.
+  intros Hk. unfold load_slot.
+  set (k0 := mkKp (k_pnext k) (k_prend k) (if 0 <? k_prend k then k_prend k - 1 else -1) (k_pnext k) (k_prend k)).
+  assert (Hk0 : kwf k0).
+  { unfold kwf in *; subst k0; cbn. destruct (0 <? k_prend k) eqn:E; b2p; lia. }
+  destruct (topup size 0 k0 ([], 0%nat)) as [[k1 r] o1] eqn:T.
+  pose proof (topup_props _ _ _ _ _ _ _ T) as (N & P & W & F & _).
+  destruct r; try (split; [exact Hk0|split; reflexivity]).
+  destruct (W Hk0) as [Hk1 _]. split; [exact Hk1|]. split; [rewrite N; reflexivity|]. rewrite (F eq_refl eq_refl). reflexivity.
+Qed.
+
+Lemma load_slot_next size k :
+  k_next (load_slot size k) = k_pnext k /\ k_pnext (load_slot size k) = k_pnext k.
+Proof.
+  unfold load_slot.
+  set (k0 := mkKp (k_pnext k) (k_prend k) (if 0 <? k_prend k then k_prend k - 1 else -1) (k_pnext k) (k_prend k)).
+  destruct (topup size 0 k0 ([], 0%nat)) as [[k1 r] o1] eqn:T.
+  pose proof (topup_props _ _ _ _ _ _ _ T) as (N & P & W & F & _).
+  destruct r; try (split; reflexivity).
+  split; [rewrite N; reflexivity|]. rewrite (F eq_refl eq_refl). reflexivity.
+Qed.
+
+(* ---------------------------------------------------------------------------------------------- *)
+(* reservation list *)
+
+Lemma find_res_in id l v : find_res id l = Some v -> In (id, v) l.
+Proof.
+  induction l as [|[i w] r IH]; cbn; [discriminate|].
+  destruct (Nat.eqb i id) eqn:E.
+  - intros H; inversion H; subst. apply Nat.eqb_eq in E; subst. left; reflexivity.
+  - intros H; right; apply IH; exact H.
+Qed.
+
+Lemma remove_res_in id l x : In x (remove_res id l) -> In x l.
+Proof.
+  induction l as [|[i w] r IH]; cbn; [tauto|].
+  destruct (Nat.eqb i id); cbn; [tauto|]. intros [H|H]; [left; exact H|right; apply IH; exact H].
+Qed.
+
+Lemma remove_res_nodup id l v :
+  NoDup (map snd l) -> find_res id l = Some v ->
+  NoDup (map snd (remove_res id l)) /\ ~ In v (map snd (remove_res id l)).
+Proof.
+  induction l as [|[i w] r IH]; cbn; [discriminate|].
+  intros Hnd. inversion Hnd as [|a b Hni Hnd']; subst.
+  destruct (Nat.eqb i id) eqn:E.
+  - intros H; inversion H; subst. split; assumption.
+  - intros H. destruct (IH Hnd' H) as [A B]. cbn. split.
+    + constructor; [|exact A]. intros Hc. apply Hni. apply in_map_iff in Hc. destruct Hc as [x [Hx Hin]].
+      apply in_map_iff. exists x. split; [exact Hx|]. eapply remove_res_in; exact Hin.
+    + intros [Hc|Hc]; [|exact (B Hc)]. subst. apply Hni. apply in_map_iff. exists (id, v). split; [reflexivity|]. apply find_res_in; exact H.
+Qed.
+
+(* ---------------------------------------------------------------------------------------------- *)
+(* wallet level: well-formedness (any faults) *)
+
+Lemma upd_same f s k : upd f s k s = k.
+Proof. unfold upd. rewrite Nat.eqb_refl. reflexivity. Qed.
+Lemma upd_other f s k s' : s' <> s -> upd f s k s' = f s'.
+Proof. unfold upd. intros H. destruct (Nat.eqb s' s) eqn:E; [apply Nat.eqb_eq in E; contradiction|reflexivity]. Qed.
+
+Definition wf (st : wst) : Prop :=
+  (forall s, kwf (w_kp st s)) /\ (forall id s i, In (id, (s, i)) (w_res st) -> 0 <= i).
+
+Lemma upd_kwf f s k : (forall s', kwf (f s')) -> kwf k -> forall s', kwf (upd f s k s').
+Proof.
+  intros Hf Hk s'. destruct (Nat.eq_dec s' s) as [->|Hne]; [rewrite upd_same; exact Hk|rewrite upd_other by exact Hne; apply Hf].
+Qed.
+
+Lemma return_all_kwf l : forall f,
+  (forall s, kwf (f s)) -> (forall id s i, In (id, (s, i)) l -> 0 <= i) -> forall s, kwf (return_all f l s).
+Proof.
+  induction l as [|[id [s i]] r IH]; intros f Hf Hl; cbn; [exact Hf|].
+  apply IH.
+  - destruct (return_dest (f s) i ([], 0%nat)) as [k' o'] eqn:R. cbn.
+    pose proof (return_dest_props _ _ _ _ _ R) as (_ & _ & W).
+    apply upd_kwf; [exact Hf|]. apply W; [apply Hf|]. eapply Hl; left; reflexivity.
+  - intros id0 s0 i0 Hin. eapply Hl; right; exact Hin.
+Qed.
+
+Lemma step_size st o st' x : step st o = (st', x) -> w_size st' = w_size st.
+Proof.
+  destruct o; cbn; intros H;
+  repeat match goal with
+  | H : context [let '(_, _) := ?e in _] |- _ => destruct e as [[? ?] ?] eqn:?
+  | H : context [match find_res ?a ?b with _ => _ end] |- _ => destruct (find_res a b) as [[? ?]|] eqn:?
+  end; try (inversion H; subst; reflexivity).
+  - destruct p. inversion H; subst; reflexivity.
+  - destruct (return_dest (w_kp st n0) z (bits, 0%nat)). inversion H; subst; reflexivity.
+Qed.
+
+Lemma step_wf st o st' x : wf st -> step st o = (st', x) -> wf st' /\ x <> OAssert.
+Proof.
+  intros [Hk Hr] H. destruct o; cbn in H.
+  - (* OpNew *)
+    destruct (get_new (w_size st) (w_kp st s) (bits, 0%nat)) as [[k r] orc] eqn:G. inversion H; subst; clear H.
+    pose proof (get_new_props _ _ _ _ _ _ G) as (_ & W & _). destruct (W (Hk s)) as [Wk Hna].
+    split; [split; cbn; [apply upd_kwf; assumption|exact Hr]|]. destruct r; cbn; congruence.
+  - destruct (get_new (w_size st) (w_kp st s) (bits, 0%nat)) as [[k r] orc] eqn:G. inversion H; subst; clear H.
+    pose proof (get_new_props _ _ _ _ _ _ G) as (_ & W & _). destruct (W (Hk s)) as [Wk Hna].
+    split; [split; cbn; [apply upd_kwf; assumption|exact Hr]|]. destruct r; cbn; congruence.
+  - (* OpRes *)
+    destruct (find_res id (w_res st)) eqn:F.
+    { inversion H; subst. split; [split; assumption|congruence]. }
+    destruct (get_new (w_size st) (w_kp st s) (bits, 0%nat)) as [[k r] orc] eqn:G. inversion H; subst; clear H.
+    pose proof (get_new_props _ _ _ _ _ _ G) as (_ & W & P). destruct (W (Hk s)) as [Wk Hna].
+    split; [split; cbn; [apply upd_kwf; assumption|]|destruct r; cbn; congruence].
+    intros id0 s0 i0 Hin. destruct r; try (eapply Hr; exact Hin).
+    destruct Hin as [Hin|Hin]; [|eapply Hr; exact Hin]. inversion Hin; subst. destruct P as [-> _]. destruct (Hk s0) as (_ & ? & _). lia.
+  - (* OpKeep *)
+    destruct (find_res id (w_res st)) as [[s i]|] eqn:F; inversion H; subst; clear H.
+    + split; [split; cbn; [exact Hk|]|congruence]. intros id0 s0 i0 Hin. eapply Hr. eapply remove_res_in; exact Hin.
+    + split; [split; assumption|congruence].
+  - (* OpRet *)
+    destruct (find_res id (w_res st)) as [[s i]|] eqn:F.
+    + destruct (return_dest (w_kp st s) i (bits, 0%nat)) as [k orc] eqn:R. inversion H; subst; clear H.
+      pose proof (return_dest_props _ _ _ _ _ R) as (_ & _ & W).
+      split; [split; cbn|congruence].
+      * apply upd_kwf; [exact Hk|]. apply W; [apply Hk|]. eapply Hr. apply find_res_in; exact F.
+      * intros id0 s0 i0 Hin. eapply Hr. eapply remove_res_in; exact Hin.
+    + inversion H; subst. split; [split; assumption|congruence].
+  - (* OpTop *)
+    destruct (topup (w_size st) n (w_kp st s) (bits, 0%nat)) as [[k r] orc] eqn:T. inversion H; subst; clear H.
+    pose proof (topup_props _ _ _ _ _ _ _ T) as (_ & _ & W & _). destruct (W (Hk s)) as [Wk Hna].
+    split; [split; cbn; [apply upd_kwf; assumption|exact Hr]|]. destruct r; cbn; congruence.
+  - (* OpUsed *)
+    destruct (mark_used (w_size st) (w_kp st s) idx (bits, 0%nat)) as [[k [c r]] orc] eqn:M. inversion H; subst; clear H.
+    pose proof (mark_used_props _ _ _ _ _ _ _ _ M) as (_ & W). destruct (W (Hk s)) as [Wk Hna].
+    split; [split; cbn; [apply upd_kwf; assumption|exact Hr]|]. destruct r; cbn; congruence.
+  - (* OpReload *)
+    inversion H; subst; clear H. split; [|congruence]. split; cbn; [|tauto].
+    intros s. apply load_slot_props. apply return_all_kwf; assumption.
+  - inversion H; subst; clear H. split; [|congruence]. split; cbn; [|tauto].
+    intros s. apply load_slot_props. apply Hk.
+Qed.
